@@ -504,7 +504,8 @@ def measured(det, name):
 
 def check_row_order(scn):
     name, variant, seed, n = scn["det"], scn["variant"], scn["seed"], scn["n"]
-    st = C.stream(name, seed, n, vary_rows=False, blocky=bool(scn.get("blocky")))
+    kw = {"levels": tuple(scn["levels"])} if scn.get("levels") else {}
+    st = C.stream(name, seed, n, vary_rows=False, blocky=bool(scn.get("blocky")), **kw)
     rng = np.random.RandomState(seed + 77)
     st2 = [(b[0].iloc[rng.permutation(len(b[0]))].reset_index(drop=True),) for b in st]
     decisions = scn.get("decisions", True)
@@ -514,11 +515,15 @@ def check_row_order(scn):
         tr = []
         for i in range(pos, len(stream)):
             feed(det, name, stream[i], i, seed)
+            thr = None
+            if decisions and name in ("HDDDM", "CDBD"):
+                # detect_batch = 3: the threshold does not depend on row positions either
+                thr = det.thresholds.get(det.total_batches)
             if name == "NNDVI":
                 from menelaus.partitioners import NNSpacePartitioner
-                tr.append((det.drift_state, None))
+                tr.append((det.drift_state, None, None))
             else:
-                tr.append((det.drift_state, measured(det, name)))
+                tr.append((det.drift_state, measured(det, name), thr))
         out.append(tr)
     a, b = out
     for i, (x, y) in enumerate(zip(a, b)):
@@ -526,7 +531,12 @@ def check_row_order(scn):
             return len(a) * 2, True, "row permutation changes the measured divergence at batch %d: %r vs %r" % (i, x[1], y[1])
         if decisions and x[0] != y[0]:
             return len(a) * 2, True, "row permutation changes the decision at batch %d: %r vs %r" % (i, x[0], y[0])
-        if x[0] == "drift" and not decisions:
+        if decisions and (x[2] is None) != (y[2] is None):
+            return len(a) * 2, True, "row permutation changes whether a threshold is computed at batch %d" % i
+        if decisions and x[2] is not None and not (math.isclose(x[2], y[2], rel_tol=1e-9, abs_tol=1e-12) or (math.isnan(x[2]) and math.isnan(y[2]))):
+            return len(a) * 2, True, "row permutation changes the threshold at batch %d: %r vs %r" % (i, x[2], y[2])
+        if not decisions and (x[0] == "drift" or y[0] == "drift" or x[0] != y[0]):
+            # the threshold may legitimately depend on row positions here: once either run alarms the references differ
             break
     return len(a) * 2, any(x[0] == "drift" for x in a), None
 
